@@ -65,6 +65,8 @@ func (e *kvElection) heartbeatLoop(ctx context.Context) {
 			}
 
 			currentRev := e.revision.Load()
+			// gofail: var verifHeartbeatAfterRevLoad struct{}
+			// verifYield("heartbeatAfterRevLoad")
 
 			token := e.Token()
 			payload := leadershipPayload{
@@ -213,6 +215,8 @@ func (e *kvElection) heartbeatLoop(ctx context.Context) {
 }
 
 func (e *kvElection) handleHeartbeatFailure(err error) {
+	// gofail: var verifHeartbeatFailureEntry struct{}
+	// verifYield("heartbeatFailureEntry")
 	log := e.getLogger()
 	log.Error("demoting_due_to_heartbeat_failure",
 		append(e.logWithContext(e.ctx),
